@@ -159,6 +159,7 @@ func (fr *frame) loopHead(l *Loop, entry *state, phiIn map[*ssa.Phi]T) *state {
 			g := env.evalBool(inv.E)
 			if o := fr.obligeHere("invariant.init", invLabel(lname, inv, i), entry, g, fmt.Sprintf("%s:%d", inv.File, inv.Line)); o != nil {
 				o.props = inv.Props
+				o.clause = inv
 			}
 		}
 	}
@@ -293,6 +294,7 @@ func (fr *frame) backEdge(from, header *ssa.BasicBlock, st *state) {
 		g := env.evalBool(inv.E)
 		if o := fr.obligeHere("invariant.preserve", invLabel(lname, inv, i), est, g, fmt.Sprintf("%s:%d", inv.File, inv.Line)); o != nil {
 			o.props = inv.Props
+			o.clause = inv
 		}
 	}
 	if lc.Decreases != nil && fr.loopMeasure[l] != "" {
